@@ -15,11 +15,19 @@ Correspondence:
              block of both sides (machinery of props/c16.py);
   L1-createflat  Front/CreateFlat.v `create_flat` (model of `_create` as a whole, the object of
              C24_create_flat_respects) vs the flat record of the real block, for every block of both sides;
+  L1-created Front/Create.v `created_constraints` (what `_create` makes of the constraints it is
+             handed: private copies, `within_block` initialised with the block's geometry where
+             it was None) vs the real `orig_constraints` of every block of both sides; the objects
+             handed over must read after the construction as they did at the call;
   L1-equiv   whenever the side conditions of the C24 theorems hold on the real argument
              blocks (no weight desugaring, EQUAL_PREAMBLE, ...) the recorded `_create`
-             arguments of the two sides are equal in the sense of the theorem
-             (constraints up to order, crossings up to dropping empty ones), by factor
-             and level *names*;
+             arguments of the two sides (as they were at the call: the recorder's snapshot) are
+             equal in the sense of the theorem (constraints up to order, crossings up to
+             dropping empty ones), by factor and level *names*.  For repeat-nil / merge-single
+             (C24_repeat_nil_created / C24_merge_singleton_created) the constraints handed on by
+             the combinator are `init_within_block g` of the ones the block was handed itself,
+             g = the real block's get_geometry(0): an entry without geometry must carry exactly
+             g on the combinator's side, an entry with a geometry must be handed on unchanged;
   flat       the final blocks of both sides are compared field by field (design names,
              crossings, sustain, weights, sizes, preambles, trials, constraint kinds +
              geometry); differences are recorded in the evidence.
@@ -218,13 +226,38 @@ def cview(ct):
     return (n, who, p, gv)
 
 
+def cview_at_call(rec, ct, ci):
+    """`cview` of a constraint as it was when it was handed to `_create`: parameter and geometry from the recorder's
+    snapshot `ci` (the object itself may be read later, and a constructor may have changed a copy of it since)."""
+    n, who, _, _ = cview(ct)
+    g = ci[3]
+    gv = None if g is None else (g[0], g[1], tuple(sorted((fname(rec.factors[f]), c) for f, c in g[2])))
+    return (n, who, ci[2], gv)
+
+
+def geometry_view(block):
+    """`get_geometry(0)` of a real block in the rendering of `cview`"""
+    with ir.quiet():
+        g = block.get_geometry(0)
+    return (g.num_trials, g.preamble_size, tuple(sorted((fname(f), c) for f, c in g.factor_to_sustain_count.items())))
+
+
+HAS_WITHIN_BLOCK = c16.KROW + ("Pin",)     # Front/Create.v has_within_block: the classes that define init_within_block
+
+
+def init_view(gv, c):
+    """Front/Create.v `init_within_block` on a `cview`: only an entry without geometry gets the block's"""
+    n, who, p, g = c
+    return (n, who, p, gv) if (g is None and n in HAS_WITHIN_BLOCK) else c
+
+
 def args_view(rec, r):
-    """The recorded _create arguments by names."""
+    """The recorded _create arguments by names, as they were at the call."""
     nm = lambda i: fname(rec.factors[i])  # noqa
     return {"design": [nm(i) for i in r["design"]], "crossings": [[nm(i) for i in c] for c in r["crossings"]],
             "sustains": list(r["sustains"]), "weights": list(r["weights"]),
-            "constraints": sorted((cview(c) for c in r["constraint_objs"]), key=repr), "rcc": r["rcc"], "mode": r["mode"],
-            "alignment": r["alignment"]}
+            "constraints": sorted((cview_at_call(rec, c, ci) for c, ci in zip(r["constraint_objs"], r["constraints"])), key=repr),
+            "rcc": r["rcc"], "mode": r["mode"], "alignment": r["alignment"]}
 
 
 def flat_view(block):
@@ -278,12 +311,20 @@ def predicted_equal(name, L, R):
     if name in ("repeat-nil", "merge-single"):
         # left = combinator over block b; right = b itself: compare with b's own recorded arguments,
         # up to what the theorem leaves open (initial vs final weights, mode, alignment, crossings filtered;
-        # Merge takes the counts / weights of the block's actual crossings only)
+        # Merge takes the counts / weights of the block's actual crossings only).  Constraints
+        # (C24_repeat_nil_created / C24_merge_singleton_created): b was handed the user's objects, the combinator hands
+        # on b's private copies = init_within_block g of them, g = b's geometry (/repo commit 88b3d0f)
         b = ls["args"][0]
         app = no_desugar(b) and nodup(b.design)
-        keep = ("design", "rcc", "constraints")
+        keep = ("design", "rcc")
         la2 = {k: la[k] for k in keep}
         ra2 = {k: ra[k] for k in keep}
+        rblk = rb.blocks.get(R[3])
+        if rblk is None:
+            return False, True, "the block itself was rejected after its _create call"
+        gv = geometry_view(rblk)
+        la2["constraints"] = la["constraints"]
+        ra2["constraints"] = sorted((init_view(gv, c) for c in ra["constraints"]), key=repr)
         la2["crossings"] = [c for c in la["crossings"] if c]
         ra2["crossings"] = [c for c in ra["crossings"] if c]
         n = len(ra2["crossings"]) if name == "merge-single" else len(ra["sustains"])
@@ -421,6 +462,13 @@ def run(ctx, res):
                             expect.append(("createflat", ce, None, lp, rp))
                         except Exception as e:  # noqa
                             stats["createflat-harness-error"] += 1
+                        # what _create makes of the constraints it is handed: Front/Create.v created_constraints vs orig_constraints
+                        try:
+                            cl, ce, unchanged = c16.created_observation(rec, st, blk)
+                            lines.append(cl)
+                            expect.append(("created", (ce, unchanged), None, lp, rp))
+                        except Exception as e:  # noqa
+                            stats["created-harness-error"] += 1
             # L1-equiv
             try:
                 app, eq, detail = predicted_equal(name, L, R)
@@ -457,12 +505,23 @@ def run(ctx, res):
                             "design": base["design"]})
     outs = ctx.model(lines) if lines else []
     corr_bad = []
+    created_bad = []
     for (rec, st, blk, lp, rp), mod in zip(expect, outs):
         if rec == "createflat":
             ok = (st == mod)
             res.layer("L1-createflat", ok)
             if not ok:
                 corr_bad.append((lp, rp, c16.first_diff(st, mod), ""))
+            continue
+        if rec == "created":
+            try:
+                mv = c16.model_created_view(mod)
+            except Exception:  # noqa
+                mv = "!" + mod
+            ok = (st[0] == mv) and st[1]
+            res.layer("L1-created", ok)
+            if not ok:
+                created_bad.append((lp, rp, st[0] + ("" if st[1] else "  [an object handed to _create was changed]"), mv))
             continue
         rv = c16.real_create_view(rec, st)
         try:
@@ -488,6 +547,12 @@ def run(ctx, res):
                                         "real=%s model=%s" % (len(corr_bad), rv[:300], mv[:300]),
                                         {"layer": "L1-create", "left": lp, "right": rp, "real": rv, "model": mv, "theorems": ["C24_*"]},
                                         failing_input=False))
+    if created_bad:
+        lp, rp, rv, mv = created_bad[0]
+        res.violations.append(Violation("corr:L1-created", "model Front/Create.v created_constraints and the orig_constraints of the real "
+                                        "block disagree on %d blocks, first: real=%s model=%s" % (len(created_bad), rv[:300], mv[:300]),
+                                        {"layer": "L1-created", "left": lp, "right": rp, "real": rv, "model": mv,
+                                         "theorems": ["C24_repeat_nil_created", "C24_merge_singleton_created"]}, failing_input=False))
     if eq_bad:
         name, lp, rp, detail = eq_bad[0]
         res.violations.append(Violation("corr:L1-equiv", "the C24 theorem for %s applies to the real argument blocks but the recorded "
